@@ -11,6 +11,13 @@ def helpers(prog, keep=(), max_blocks=48, private_only=True):
         if b.kind in ("Fn", "AssocFn"):
             idx.setdefault(b.path, b)
 
+    closures = {b.path: b for b in prog.lib_bodies() if b.kind == "Closure"}
+
+    def closure(path):
+        """Body of a closure, or of a crate function used as a function value (`map(f)`); the walker applies it to
+        the payload when it models an Option / Result combinator."""
+        return closures.get(path) or policy(path)
+
     def policy(name):
         b = idx.get(name)
         if b is None:
@@ -21,4 +28,5 @@ def helpers(prog, keep=(), max_blocks=48, private_only=True):
         if len(b.blocks) > max_blocks or (private_only and b.is_pub):
             return None
         return b
+    policy.closure = closure
     return policy
